@@ -731,6 +731,9 @@ def index(ip, st, v, i):
     """v[i] with IndexError / KeyError / TypeError paths."""
     if isinstance(i, enum.IntEnum):
         i = int(i)
+    if hasattr(v, "sym_index"):
+        yield from v.sym_index(ip, st, i)
+        return
     if isinstance(v, JVal):
         if ip.spec:
             # total view: a str key reads the dict view (overlay first), an int the list view
@@ -918,6 +921,9 @@ def slice_terms(vt, lo, hi):
 
 
 def slice(ip, st, v, lo, hi):
+    if hasattr(v, "sym_slice"):
+        yield from v.sym_slice(ip, st, lo, hi)
+        return
     if isinstance(v, JVal):
         for st1, c in narrow(ip, st, v):
             if isinstance(c, JList):
